@@ -1,5 +1,5 @@
 """Property table: id -> callable(tier) -> exit code."""
-from . import core, reader, writer, conc
+from . import core, reader, writer, conc, pair
 
 BASE_ASSUME = [
     "TLC 1.8.0 and the CommunityModules (Json, IOUtils) are correct",
@@ -58,6 +58,12 @@ W = "MC_W.tla"
 
 def wcfg(fam, q):
     return "MC_W_%s%s.cfg" % (fam, "_quick" if q else "")
+
+
+def c01(tier):
+    q = tier == "quick"
+    return pair.run_pair_check("C01", tier, [(W, wcfg("conform", q)), (W, wcfg("prepared", q))], max_progs=2500 if q else 60000,
+                               assumptions=BASE_ASSUME)
 
 
 def c02(tier):
@@ -121,7 +127,7 @@ def c20(tier):
     ], assumptions=BASE_ASSUME)
 
 
-TABLE = {"C02": c02, "C03": c03, "C04": c04, "C05": c05, "C06": c06, "C08": c08, "C09": c09, "C10": c10, "C11": c11, "C19": c19, "C20": c20}
+TABLE = {"C01": c01, "C02": c02, "C03": c03, "C04": c04, "C05": c05, "C06": c06, "C08": c08, "C09": c09, "C10": c10, "C11": c11, "C19": c19, "C20": c20}
 
 # per-property overrides for MANIFEST fields (category, text, note, technique, design_ref)
 INFO = {}
